@@ -562,3 +562,94 @@ def carried_locals(fn):
                 res[l] = d
     # reported by type, not by name: renaming a variable changes nothing
     return sorted('%s@L%d' % (_short_ty(fn.ty(l)), d) for l, d in res.items())
+
+
+# ---- dependence order ---------------------------------------------------------------------------------
+_ROOT = re.compile(r'^(self|arg\d+)(\.[A-Za-z_0-9]+)?')
+
+
+def _roots(ls):
+    out = set()
+    for leaf in ls:
+        m = _ROOT.match(leaf)
+        if m:
+            out.add(m.group(0))
+    return out
+
+
+def _overlap(r1, r2):
+    for a in r1:
+        for b in r2:
+            if a == b or a.startswith(b + '.') or b.startswith(a + '.'):
+                return True
+    return False
+
+
+def _is_mut_ref(fn, o):
+    if o[0] not in ('c', 'm') or len(o[1]) != 1:
+        return False
+    ty = fn.ty(o[1][0])
+    return bool(re.match(r"^&('\w+ )?mut ", ty))
+
+
+def order_fingerprint(fn, summ):
+    """Which call / `*self` store comes *after* which, restricted to pairs with a data dependence through a common object (a
+    parameter or a field of `self` that one of the two may modify: it is passed as `&mut`, or stored to) and to the nearest such
+    predecessor on the dominator chain.  Sets of calls, their guards and their operands do not say that the string table is
+    serialised *after* the units that may still add strings to it, that the length is patched after the body, that a cache is
+    cleared before it is filled.  Two statements without such a dependence (two getters, two stores to different fields) have no
+    order row, so reordering independent statements changes nothing."""
+    evs = defaultdict(list)     # block -> [(pos, label, reads, writes)]
+    for b in sorted(fn.reach):
+        stmts, t = fn.blocks[b]
+        for i, st in enumerate(stmts):
+            if st[0] != 'a':
+                continue
+            pl, rv = st[1], st[2]
+            if len(pl) > 1:
+                base, names = summ.root_of(fn, pl)
+                if base == 1 and names:
+                    evs[b].append((i, 'w:' + names[0], _roots(_rv_leaves(fn, rv)), {'self.' + names[0]}))
+        if t['k'] == 'call':
+            f = t['f']
+            name = '<fnptr>' if 'ptr' in f else f.get('name')
+            if name and name not in NOISE_CALLS:
+                ls = [leaves(fn, a_, 14) for a_ in t['a']]
+                rd, wr = set(), set()
+                for a_, l_ in zip(t['a'], ls):
+                    (wr if _is_mut_ref(fn, a_) else rd).update(_roots(l_))
+                d = t['d']
+                if len(d) > 1:
+                    base, names = summ.root_of(fn, d)
+                    if base == 1 and names:
+                        wr.add('self.' + names[0])
+                if rd or wr:
+                    evs[b].append((len(stmts), 'c:%s(%s)' % (name, _fmt(ls[0]) if ls else ''), rd, wr))
+    if not evs:
+        return []
+    dom = fn.dom
+    idom = {}
+    for b in fn.reach:
+        sd = [d_ for d_ in dom.get(b, ()) if d_ != b]
+        idom[b] = max(sd, key=lambda d_: len(dom.get(d_, ()))) if sd else None
+
+    def dep(e1, e2):
+        return _overlap(e1[3], e2[2] | e2[3]) or _overlap(e1[2], e2[3])
+    rows = set()
+    for b, lst in evs.items():
+        for k, ev in enumerate(lst):
+            found = None
+            for j in range(k - 1, -1, -1):
+                if dep(lst[j], ev):
+                    found = lst[j][1]
+                    break
+            cur = idom.get(b)
+            while found is None and cur is not None:
+                for ev2 in reversed(evs.get(cur, [])):
+                    if dep(ev2, ev):
+                        found = ev2[1]
+                        break
+                cur = idom.get(cur)
+            if found is not None and found != ev[1]:
+                rows.add('%s < %s' % (found, ev[1]))
+    return sorted(rows)
